@@ -1,28 +1,12 @@
 import Gengo.Props.C19
 namespace Gengo.Camel
 
-/-- `makeCase(linker, transWord)`: split, drop single graphic non-alphanumeric words, transform and
-    join.  `trans`, `dropWord` stand for `strings.ToLower/ToUpper`, `cases.Title`, the `ID` special
-    case and the `unicode.IsGraphic/IsLetter/IsDigit` test — total library functions. -/
-def makeCase (p : Preds) (guarded : Bool) (linker : List Char) (trans : List Char → Nat → List Char)
-    (dropWord : List Char → Bool) (s : List Char) : Option (List Char) :=
-  (split p guarded s).map fun ws =>
-    let kept := ws.filter (fun w => !dropWord w)
-    ((kept.zipIdx.map fun (w, i) => trans w i).intersperse linker).flatten
-
 /-- C19: the six converters never fail (repaired `Split`), for every input, every Unicode
     classification and every word transformation -/
 theorem makeCase_total (p : Preds) (linker : List Char) (trans) (dropWord) (s : List Char) :
     (makeCase p true linker trans dropWord s).isSome = true := by
   obtain ⟨ws, h, _, _⟩ := split_total_lossless p s
   simp [makeCase, h]
-
-/-- `Split` as the Go function sees its argument: bytes that may not be valid UTF-8 -/
-def splitBytes (p : Preds) (guarded : Bool) (decode : List UInt8 → Option (List Char)) (bs : List UInt8) :
-    Option (List (List UInt8) ⊕ List (List Char)) :=
-  match decode bs with
-  | none => some (.inl [bs])                      -- not valid UTF-8: the whole string, one word
-  | some s => (split p guarded s).map .inr
 
 /-- C19: total on all byte strings; an invalid one comes back whole -/
 theorem splitBytes_total (p : Preds) (decode) (bs : List UInt8) :
